@@ -14,6 +14,7 @@ from __future__ import annotations
 import contextlib
 import io
 import itertools
+import sys
 import threading
 import warnings
 from typing import Any, Dict, List, Optional, Tuple
@@ -264,7 +265,10 @@ def hop_case(depth: int, observe_from: int) -> Optional[str]:
                 box["raised"] = repr(ex)
         box["warnings"] = [str(x.message)[:200] for x in w]
 
+    level_frames: List[Any] = []
+
     def sync_level(k: int) -> None:
+        level_frames.append(sys._getframe(0))
         if k == depth:
             if observe_from == 1:
                 observe("thread")
@@ -275,6 +279,7 @@ def hop_case(depth: int, observe_from: int) -> Optional[str]:
         trio.from_thread.run(async_level, k + 1)
 
     async def async_level(k: int) -> None:
+        level_frames.append(sys._getframe(0))
         if k == depth:
             if observe_from == 1:
                 observe("trio")
@@ -335,6 +340,10 @@ def hop_case(depth: int, observe_from: int) -> Optional[str]:
     # nothing else may be visible between the levels: the visible series STARTS with exactly the levels
     if vis[: len(exp)] != exp:
         return f"bridging internals are visible between the levels: {vis} (expected to start with {exp})"
+    # and each level is the frame of THAT hop (several worker threads run the same function under equal names)
+    got_frames = [f.pyframe for f in st.frames if not f.hide][1: len(exp)]
+    if [id(x) for x in got_frames] != [id(x) for x in level_frames[: len(got_frames)]]:
+        return "a hop level is stitched to another call's frame (same function, different thread)"
     return None
 
 
